@@ -47,7 +47,18 @@ def canon(x, strict=False, _depth=0, _onpath=None):
             return (qual(t), str(x))
         if x.is_nan():
             return (qual(t), "NaN")
-        return (qual(t), "0" if x == 0 else str(x.normalize()))
+        if not x.is_finite():
+            return (qual(t), str(x))
+        # the numeric value, exactly: trailing zeros dropped by hand (Decimal.normalize() would round to the context precision and
+        #   make two different 40-digit values look alike)
+        sign, digits, exp = x.as_tuple()
+        digits = list(digits)
+        while len(digits) > 1 and digits[-1] == 0:
+            digits.pop()
+            exp += 1
+        if digits == [0]:
+            return (qual(t), "0")
+        return (qual(t), ("-" if sign else "") + "".join(map(str, digits)) + f"E{exp}")
     if isinstance(x, fractions.Fraction):
         return (qual(t), x.numerator, x.denominator)
     if isinstance(x, uuid.UUID):
